@@ -96,10 +96,8 @@ impl<T> Outcome<T> {
     }
 }
 /// Runs a closure returning the crate's Result under catch_unwind.
-pub fn observe<T, F: FnOnce() -> ciphercore_base::errors::Result<T> + std::panic::UnwindSafe>(
-    f: F,
-) -> Outcome<T> {
-    match std::panic::catch_unwind(f) {
+pub fn observe<T, F: FnOnce() -> ciphercore_base::errors::Result<T>>(f: F) -> Outcome<T> {
+    match std::panic::catch_unwind(std::panic::AssertUnwindSafe(f)) {
         Ok(Ok(x)) => Outcome::Ok(x),
         Ok(Err(_)) => Outcome::Err,
         Err(_) => Outcome::Panic,
